@@ -31,7 +31,10 @@ type killedHandler struct {
 // handleChildDeath 处理子 Actor 死亡
 func (h *killedHandler) handleChildDeath() {
 	if !h.message.Ref.Equals(h.ctx.ref) {
-		delete(h.ctx.children, h.message.Ref.GetPath())
+		// 仅当记录的仍是该终止者本身时才移除：同名子 Actor 可能已被重新创建，不能因旧实例的终止通知而丢失新实例
+		if child, ok := h.ctx.children[h.message.Ref.GetPath()]; ok && child == h.message.Ref {
+			delete(h.ctx.children, h.message.Ref.GetPath())
+		}
 		h.ctx.executeBehaviorWithRecovery(h.behavior)
 		h.ctx.Logger().Debug("child death", log.Int("children_count", len(h.ctx.children)), log.String("ref", h.ctx.ref.GetPath()), log.String("child", h.message.Ref.GetPath()))
 	}
